@@ -347,6 +347,32 @@ fn main() {
                 None => println!("level=none"),
             }
         }
+        // size_compaction_level <level-0 file count> <sizes level 1|-> ... <sizes level 6|-> : a version with files of these sizes is
+        // installed through log_and_apply (which finalizes it); then VersionSet::pick_compaction is asked for the next compaction
+        "size_compaction_level" => {
+            let n0 = num(a[1]) as usize;
+            let mut lv: Vec<(usize, Vec<v::VFile>)> = vec![];
+            let mut number = 10u64;
+            let l0: Vec<v::VFile> = (0..n0).map(|i| { number += 1; (number, 1000, (vec![b'a' + i as u8], 9), (vec![b'b' + i as u8], 8)) }).collect();
+            lv.push((0, l0));
+            for level in 1..=6usize {
+                let mut files: Vec<v::VFile> = vec![];
+                if a[1 + level] != "-" {
+                    for (i, sz) in a[1 + level].split(',').enumerate() {
+                        number += 1;
+                        files.push((number, sz.parse::<u64>().unwrap(), (vec![b'a' + 2 * i as u8], 9), (vec![b'a' + 2 * i as u8 + 1], 8)));
+                    }
+                }
+                lv.push((level, files));
+            }
+            let (required, level, files_at) = v::size_compaction_state(opts(), &lv);
+            println!("required={}", required);
+            println!("level={}", level);
+            println!("files_at_level={}", files_at);
+            let lv2 = lv.clone();
+            let picked = std::panic::catch_unwind(move || v::pick_compaction_scenario(opts(), &lv2, None, None, None));
+            println!("pick={}", match picked { Ok(Some((l, _, _))) => format!("level {}", l), Ok(None) => "none".to_string(), Err(_) => "panicked".to_string() });
+        }
         // live_files : files at levels 0, 3 and 6; does get_live_files report all of them?
         "live_files" => {
             let mk = |n: u64, k: u8| -> v::VFile { (n, 100, (vec![k], 9), (vec![k + 1], 8)) };
